@@ -65,7 +65,7 @@ def check_triplet(ctx, n, r, s, detail=True):
     # raw string
     try:
         enc = util.sigencode_string(r, s, n)
-        ctx.case("rt.string", key=key, nontrivial=detail)
+        ctx.case("rt.string", key=key, nontrivial=detail, sample=dict(n=n, r=r, s=s, encoded=enc) if ctx.want("rt.string") and n > 300 else None)
         if bytes(enc) != want_r + want_s:
             ctx.violation("string_encoding_wrong", "sigencode_string(%d,%d,%d) = %s" % (r, s, n, bytes(enc).hex()), dict(n=n, r=r, s=s), _rp("string", r, s, n))
         elif util.sigdecode_string(enc, n) != (r, s):
@@ -87,7 +87,7 @@ def check_triplet(ctx, n, r, s, detail=True):
     # DER
     try:
         enc = util.sigencode_der(r, s, n)
-        ctx.case("rt.der", key=key, nontrivial=detail)
+        ctx.case("rt.der", key=key, nontrivial=detail, sample=dict(n=n, r=r, s=s, encoded=enc) if ctx.want("rt.der") and n > 300 else None)
         if bytes(enc) != R.enc_sig(r, s):
             ctx.violation("der_encoding_wrong", "sigencode_der(%d,%d,%d) = %s, reference %s" % (r, s, n, bytes(enc).hex(), R.enc_sig(r, s).hex()), dict(n=n, r=r, s=s), _rp("der", r, s, n))
         elif util.sigdecode_der(enc, n) != (r, s):
@@ -127,7 +127,7 @@ def check_helpers(ctx, n, v):
 
 
 def expect_reject(ctx, cls, key, f, arg, n, allowed, mech, desc):
-    ctx.case(cls, key=key)
+    ctx.case(cls, key=key, sample=dict(decoder=f.__name__, n=n, input=arg, what=desc) if ctx.want(cls) else None)
     try:
         got = f(arg, n)
     except allowed:
